@@ -1304,6 +1304,13 @@ func (broker *Broker) finish(file sts.Polled) {
 	switch {
 	case file.Waiting() || file.Received():
 		log.Debug("Validated:", file.GetName())
+		if cached := broker.Conf.Cache.Get(file.GetName()); cached != nil && cached.GetHash() != file.GetHash() {
+			// The verdict is about the version that was sent; the cache already
+			// describes a newer one (rewritten and scanned again since), which
+			// must neither be marked done nor deleted on its strength
+			log.Debug("Ignoring verdict for an older version:", file.GetName())
+			return
+		}
 		// Make marking done and file removal a single transaction so that we
 		// keep the cache in sync with the file system.  Without it, it's
 		// possible (but not likely) that the cache could be written with a
